@@ -51,20 +51,22 @@ def main():
     env = {k: v for k, v in os.environ.items() if k not in ("PYTHONPATH",)}
     env["PYTHONDONTWRITEBYTECODE"] = "1"
     if not a.skip_confirm:
+        # the demonstration and the unit tests must import the worktree's copy of the library, not the installed /repo
+        wenv = dict(env, PYTHONPATH=os.path.abspath(wt))
         sh("git checkout -- . ", cwd=wt)
         rc, out, err = sh(f"git apply --check {patch}", cwd=wt)
         meta["patch_applies"] = rc == 0
         if rc != 0:
             print("patch does not apply:", err)
             return 2
-        rc0, out0, _ = sh(f"{PY} {demo}", cwd=wt, env=env)
+        rc0, out0, _ = sh(f"{PY} {demo}", cwd=wt, env=wenv)
         sh(f"git apply {patch}", cwd=wt)
-        rc, out, err = sh(f"{PY} -m pytest -q -p no:cacheprovider -x", cwd=wt, env=env)
+        rc, out, err = sh(f"{PY} -m pytest -q -p no:cacheprovider -x", cwd=wt, env=wenv)
         meta["tests_pass_with_change"] = rc == 0
         meta["tests_tail"] = (out.strip().splitlines() or [""])[-1]
-        rc1, out1, _ = sh(f"{PY} {demo}", cwd=wt, env=env)
+        rc1, out1, _ = sh(f"{PY} {demo}", cwd=wt, env=wenv)
         sh("git checkout -- . ", cwd=wt)
-        rc2, out2, _ = sh(f"{PY} {demo}", cwd=wt, env=env)
+        rc2, out2, _ = sh(f"{PY} {demo}", cwd=wt, env=wenv)
         meta["demo_exit_without_change"] = [rc0, rc2]
         meta["demo_exit_with_change"] = rc1
         meta["demo_output_with_change"] = out1.strip().splitlines()[-6:]
